@@ -36,10 +36,14 @@ def main():
         checks = a[a.index("--checks") + 1].split(",")
     if "--keep-as" in a:
         keep = a[a.index("--keep-as") + 1]
+    benign = "--benign" in a
     meta = json.load(open(os.path.join(seed, "meta.json")))
     pid = meta.get("property")
     if checks is None:
         checks = sorted({pid, "C15"})
+    if benign and "--checks" not in a:
+        import glob
+        checks = sorted(os.path.basename(x)[:-3] for x in glob.glob(os.path.join(HERE, "checks", "C*.py")))
     patch = os.path.join(seed, "patch.diff")
     touched = [l[6:].strip() for l in open(patch) if l.startswith("+++ b/")]
     is_c = any(t.endswith((".c", ".cc", ".cpp", ".h", ".hpp", ".i")) for t in touched)
@@ -80,6 +84,8 @@ def main():
         res["suite_rc"] = rc
         res["suite_tail"] = out.strip().splitlines()[-1] if out.strip() else ""
         res["confirmed"] = bool(res["demo_clean_rc"] == 0 and res["demo_patched_rc"] != 0 and res["suite_rc"] == 0)
+        if benign:
+            res["confirmed"] = bool(res["demo_clean_rc"] == 0 and res["demo_patched_rc"] == 0 and res["suite_rc"] == 0 and res.get("rebuild_rc", 0) == 0)
         det = {}
         for c in checks:
             env = dict(os.environ, VCHECK_REPO=wt)
@@ -89,17 +95,22 @@ def main():
                       "error": [l[:300] for l in lines if l.startswith("ANALYSIS-ERROR")]}
         res["checks"] = det
         res["detected_by"] = sorted(c for c, d in det.items() if d["rc"] == 1)
+        res["analysis_errors"] = sorted(c for c, d in det.items() if d["rc"] == 2)
     finally:
         sh(["git", "-C", "/repo", "worktree", "remove", "--force", wt], "/")
         shutil.rmtree(wt, ignore_errors=True)
         sh(["git", "-C", "/repo", "worktree", "prune"], "/")
     print(json.dumps(res, indent=1))
     if keep and res.get("confirmed"):
-        dst = os.path.join(HERE, "seeded", keep)
+        dst = os.path.join(HERE, "selftest", "benign", keep) if benign else os.path.join(HERE, "seeded", keep)
         os.makedirs(dst, exist_ok=True)
         for f in ("patch.diff", "demo.py"):
             shutil.copy2(os.path.join(seed, f), os.path.join(dst, f))
-        meta["breaks_property"] = pid
+        meta["breaks_property"] = None if benign else pid
+        if benign:
+            meta["keeps_property"] = pid
+            meta["false_alarms_when_first_run"] = res["detected_by"]
+            meta["analysis_errors_when_first_run"] = res["analysis_errors"]
         meta["what_i_ran"] = {"demo_on_clean_tree_rc": res["demo_clean_rc"], "demo_on_patched_tree_rc": res["demo_patched_rc"],
                               "demo_patched_output_tail": res["demo_patched_tail"][-200:], "suite_on_patched_tree": res["suite_tail"],
                               "rebuilt_extensions": is_c, "checks_run": {c: d["rc"] for c, d in det.items()}}
